@@ -15,7 +15,7 @@ From XD Require Import lib.ListAux model.Table.
 Import ListNotations.
 Open Scope Z_scope.
 
-Inductive serr := EKey | EIndex | EType | EValue.
+Inductive serr := EKey | EIndex | EType | EValue | EName.
 Inductive sres (A : Type) := Ok (a : A) | Err (e : serr).
 Arguments Ok {A} a.
 Arguments Err {A} e.
